@@ -244,6 +244,8 @@ pub fn prop() -> HistProp {
     // a vAMM owner may point the vAMM's insurance-fund setting at a foreign registry that lists it too
     w.rewire = 4;
     w.paused_liq = 2;
+    // the pauser role changes hands: to a trading account and back (whoever paused is stopped like everybody else)
+    w.handover = 2;
     HistProp {
         id: "C14",
         level: "exploration",
